@@ -16,9 +16,11 @@ def palette_normalisation(model: Model, rr: RuleResult, only_v0: bool = False):
     """The function applied to colours when the palette is built equals the one applied at every look-up."""
     fi = model.func("write_font", "_colr_ufo")
     us = find_calls(fi, "uniq_sort_cpal_colors")
-    if len(us) != 1 or not isinstance(us[0].args[0], ast.GeneratorExp):
+    from ..dataflow import flatten_generator
+    _pcfg = cfg_of(fi)
+    gen = flatten_generator(_pcfg, _pcfg.node_for(us[0]), us[0].args[0]) if len(us) == 1 and us[0].args else None
+    if not isinstance(gen, (ast.GeneratorExp, ast.ListComp)):
         raise AnalysisError("_colr_ufo: uniq_sort_cpal_colors(<generator>) not found")
-    gen = us[0].args[0]
     elt = gen.elt
     var = norm(gen.generators[0].target)
     v0_norm = v1_norm = None
@@ -101,7 +103,11 @@ def r15a(model: Model, rr: RuleResult):
 def r15b(model: Model, rr: RuleResult):
     fi = model.func("write_font", "_colr_ufo")
     us = find_calls(fi, "uniq_sort_cpal_colors")
-    gen = us[0].args[0]
+    from ..dataflow import flatten_generator
+    _pcfg = cfg_of(fi)
+    gen = flatten_generator(_pcfg, _pcfg.node_for(us[0]), us[0].args[0]) if len(us) == 1 and us[0].args else None
+    if not isinstance(gen, (ast.GeneratorExp, ast.ListComp)):
+        raise AnalysisError("_colr_ufo: uniq_sort_cpal_colors(<generator>) not found")
     conds = [norm(c) for g in gen.generators for c in g.ifs]
     var = norm(gen.generators[0].target)
     if conds == [f"not {var}.is_current_color()"]:
@@ -218,12 +224,19 @@ def r15c(model: Model, rr: RuleResult):
     ok = False
     for c in reps:
         _, pe = expr_closure(fcfg, fcfg.node_for(var_rets[0]), kwarg(c, "palette_index"))
-        if any("int(m.group(1))" in norm(x) for x in pe):
+        from ..dataflow import resolved as _r15, fold_tuples as _f15
+        rv = norm(_f15(_r15(fcfg, fcfg.node_for(var_rets[0]), kwarg(c, "palette_index"))))
+        if any("int(m.group(1))" in norm(x) for x in pe) or rv in ("int(m.group(1))", "int(m.groups()[0])", "int(m[1])") \
+                or __import__("re").match(r"^int\(.*_COLOR_VARIABLE_RE\.(match|fullmatch)\(.*\)(\.group\(1\)|\.groups\(\)\[0\]|\[1\])\)$", rv):
             ok = True
     if ok:
         rr.ok("var(--colorN, c): N becomes palette_index of the fallback colour c")
     else:
-        rr.bad(fs, var_rets[0], "var(--colorN, c) no longer records N as the palette index", construct="Color.fromstring: var(--colorN)")
+        mentions = any("palette_index" in norm(e) for e in vexprs)
+        if not reps and not mentions:
+            rr.bad(fs, var_rets[0], "var(--colorN, c) no longer records N as the palette index", construct="Color.fromstring: var(--colorN)")
+        else:
+            rr.bad_shape(fs, var_rets[0], "var(--colorN, c) no longer records N as the palette index", construct="Color.fromstring: var(--colorN)")
 
 
 @RULES.rule("C15", "R15d", "Color.opaque() changes alpha only (palette index and RGB are kept)", floor=1)
